@@ -370,6 +370,8 @@ def weave(job, cpath, info, outdir, witness_mode=False):
 
     def site_sub(m):
         hits = [c for c in find_fn(info, m.group(1), reach) if 'site_id' in info['functions'][c]]
+        if not hits:
+            return '(-1)'     # no such raise site is reachable: a clause that demands an exception from it cannot hold (reported as its failure)
         if len(hits) != 1:
             raise Undecided('$SITE{%s} matches %d throwing functions' % (m.group(1), len(hits)))
         return str(info['functions'][hits[0]]['site_id'])
